@@ -32,5 +32,6 @@ Fixpoint run_show_from (sl bs : nat) (s : st) (ops : list op) : list string :=
         :: run_show_from sl bs s' r
   end.
 
-Definition run_show (c : nat * nat * list op) : string :=
-  let '(sl, bs, ops) := c in String.concat " " (run_show_from sl bs init ops).
+Definition run_show (c : bool * nat * nat * list op) : string :=
+  let '(pre, sl, bs, ops) := c in
+  String.concat " " (run_show_from sl bs (if pre then init_pre else init) ops).
